@@ -31,7 +31,7 @@ for d in sorted(glob.glob("/verif/seeded/C*"), key=lambda d: order(os.path.basen
     rows.append(f"| {name} | {prop} | {verdict} | {keys} | {note} |")
 with open("/verif/seeded/INDEX.md", "w") as f:
     f.write("# Seeded changes (confirmed: suite passes with the change, demonstration fails with it and passes without)\n\n")
-    f.write("Each directory holds patch.diff, the demonstration, demo_path.txt / demo_cmd.txt, notes.md (the seeding agent's description of what the change needs in order to manifest) and meta.json (what was run and what the quick check reported). Produced by fresh sub-agents that saw only the property text and a scratch worktree. `-r2*` = second round (different agents, after the first round's strengthenings); `-r3*` ... `-r7*` = adversarial rounds (agents were told they face a randomised reference-model checker and asked to evade it); `-r8*` = a last plain round in the continuation session (agents saw only the property text). Patches are against the /repo commit named in meta.json (`repo_head`). Regenerate with `python3 /verif/seeded_index.py`.\n\n")
+    f.write("Each directory holds patch.diff, the demonstration, demo_path.txt / demo_cmd.txt, notes.md (the seeding agent's description of what the change needs in order to manifest) and meta.json (what was run and what the quick check reported). Produced by fresh sub-agents that saw only the property text and a scratch worktree. `-r2*` = second round (different agents, after the first round's strengthenings); `-r3*` ... `-r7*` = adversarial rounds (agents were told they face a randomised reference-model checker and asked to evade it); `-r8*` = a last plain round in the continuation session (`-r8a`: agents saw only the property text; `-r8b`: asked for multi-step, memo and aliasing breaks). Patches are against the /repo commit named in meta.json (`repo_head`). Regenerate with `python3 /verif/seeded_index.py`.\n\n")
     f.write("| round | caught at once | caught after strengthening | caught by a sibling property | not caught |\n|---|---|---|---|---|\n")
     for r in sorted(tot):
         t = tot[r]
